@@ -2306,7 +2306,10 @@ class _LazyEnum:
 
 
 def _b_enumerate(it, args, kw):
-    if args and isinstance(args[0], SV) and args[0].kind in ('plist', 'plist_rev', 'idl', 'intlist'):
+    if args and isinstance(args[0], SV) and args[0].kind in ('plist', 'plist_rev', 'idl', 'intlist', 'str'):
+        start = args[1] if len(args) > 1 else kw.get('start', 0)
+        if not (isinstance(start, int) and start == 0):
+            raise Unsupported('enumerate over a symbolic sequence with a start other than 0')
         return _LazyEnum(args[0])              # only a loop under contract can run over it
     return [(i, x) for i, x in enumerate(it.iterate(args[0]))]
 
